@@ -71,4 +71,33 @@ theorem delayFlat_eq_ring (pre post : List UInt64) (r : Ring) (x t : UInt64)
   rw [hg, hs1, hs2, hs3]
   simp [Ring.words]
 
+/-! ### single state instructions on a region `pre ++ mid ++ post` with the cursor at `pre.length` -/
+
+theorem step_mem (pre post : List UInt64) (w x : UInt64) :
+    vmStep ⟨pre.length, pre ++ [w] ++ post⟩ (.mem x) = some (⟨pre.length, pre ++ [x] ++ post⟩, [w]) := by
+  have h1 := getD_mid pre [w] post 0 0 (by simp)
+  have h2 := set_mid pre [w] post 0 x (by simp)
+  simp only [Nat.add_zero] at h1 h2
+  simp only [vmStep, h1, h2]
+  simp
+
+theorem step_get (pre mid post : List UInt64) :
+    vmStep ⟨pre.length, pre ++ mid ++ post⟩ (.get mid.length) = some (⟨pre.length, pre ++ mid ++ post⟩, mid) := by
+  simp only [vmStep, slice_mid]
+  simp
+
+theorem step_set (pre mid post ws : List UInt64) (h : ws.length = mid.length) :
+    vmStep ⟨pre.length, pre ++ mid ++ post⟩ (.set ws) = some (⟨pre.length, pre ++ ws ++ post⟩, []) := by
+  simp only [vmStep, writeAt_mid _ _ _ _ h]
+  simp [h]
+
+theorem step_delay (pre post : List UInt64) (r : Ring) (x t : UInt64) (hwr : r.wr < 2 ^ 64) :
+    vmStep ⟨pre.length, pre ++ r.words ++ post⟩ (.delay r.data.length x t) =
+      some (⟨pre.length, pre ++ (r.process x t).2.words ++ post⟩, [(r.process x t).1]) := by
+  by_cases h0 : r.data.length = 0
+  · simp [vmStep, h0, Ring.process, Ring.processD]
+  · have hb : pre.length + 2 + r.data.length ≤ (pre ++ r.words ++ post).length := by
+      simp [Ring.words]; omega
+    simp only [vmStep, h0, if_false, hb, if_true, delayFlat_eq_ring pre post r x t (by omega) hwr]
+
 end Mimium.StateMachine
